@@ -182,8 +182,54 @@ def real_dirs(tree, here=None):
     return out
 
 
+COLLIDE_BODY = [["Code"], ["If", ["Defd", "F0"]], ["Code"], ["Else"], ["Code"], ["Endif"], ["Code"]]
+
+
+def plan_collisions(rng, cfiles, centries):
+    """'dirlink/../name' with a DIFFERENT file 'name' beside the link: for some entries the source file main = D/name
+    is going to be spelled P/dl/../name where P/dl -> D/child (so that it denotes D/name physically, P/name
+    textually), and a new, different source file P/name is added to the (canonical and decorated) world, inside the
+    code base and half of the time compiled by one more entry.  Returns the new files, entries and the plan."""
+    cfiles = [list(f) for f in cfiles]
+    existing = {pstr(p) for p, _ in cfiles}
+    dirs_with_kids = {}
+    for d in CDIRS + [["ext"], CB]:
+        if len(d) > 1:
+            dirs_with_kids.setdefault(pstr(d[:-1]), []).append(d)
+    for p, _ in cfiles:
+        for i in range(2, len(p)):
+            dirs_with_kids.setdefault(pstr(p[:i - 1]), [])
+            if p[:i] not in dirs_with_kids[pstr(p[:i - 1])]:
+                dirs_with_kids[pstr(p[:i - 1])].append(p[:i])
+    tagged = [[pl, e, None] for pl, e in centries]
+    extra = []
+    for j, t in enumerate(tagged):
+        main = t[1][0]
+        if rng.random() >= 0.3:
+            continue
+        kids = dirs_with_kids.get(pstr(main[:-1]), [])
+        places = [d for d in [CB, ["cb", "inc1"], ["cb", "src"], ["cb", "src", "sub"]]
+                  if d != main[:-1] and pstr(d + main[-1:]) not in existing]
+        if not kids or not places:
+            continue
+        target = rng.choice(kids)
+        place = rng.choice(places)
+        newf = place + main[-1:]
+        existing.add(pstr(newf))
+        cfiles.append([newf, normalise([list(l) for l in COLLIDE_BODY])])
+        t[2] = (place, f"dl{j}", target, rng.random() < 0.4)
+        if rng.random() < 0.5:
+            extra.append([rng.randrange(NPLAT), [newf, [], [], []], None])
+    tagged += extra
+    tagged.sort(key=lambda t: t[0])
+    return sorted(cfiles, key=lambda f: f[0]), [[pl, e] for pl, e, _ in tagged], [pln for _, _, pln in tagged]
+
+
 def decorate(rng, cfiles, centries, level):
     """Add links and respell every path.  Returns the case."""
+    plan = [None] * len(centries)
+    if level >= 1:
+        cfiles, centries, plan = plan_collisions(rng, cfiles, centries)
     tree = build_tree(cfiles)
     name_alias = {}          # component -> alias component (a link beside EVERY node with that name)
     nlinks = 0
@@ -309,7 +355,16 @@ def decorate(rng, cfiles, centries, level):
     for j, (pl, (main, dirs, defs, incs)) in enumerate(centries):
         adefs = [[m, (["P", v[1], alias_name(v[2])] if isinstance(v, list) else v)] for m, v in defs]
         msp = respell(main, "file")
-        if level >= 1 and incs and rng.random() < 0.5:
+        if plan[j] is not None:
+            place, dl, target, ab = plan[j]
+            if t_at(tree, place + [dl]) is None:
+                t_put(tree, place + [dl], ["L", 1, list(target)] if ab else ["L", 0, relpath(place, target)])
+                nlinks += 1
+                links.append(place + [dl])
+            cand = place + [dl, "..", main[-1]]
+            if py_realpath(tree, cand) == list(main):
+                msp = cand
+        elif level >= 1 and incs and rng.random() < 0.5:
             # a translation unit with forced includes named through a file link that lives in another directory
             where = rng.choice([d for d in real_dirs(tree) if d != main[:-1]])
             nm = f"m{j}.c"
@@ -428,6 +483,11 @@ def features(case):
                 tags.add(f"{what}_via_{'final' if last else 'inner'}_link")
                 if not last and sp[i + 1] == "..":
                     tags.add("dotdot_after_link")
+                    lex = acc + sp[i + 2:]
+                    phys = py_realpath(tree, sp)
+                    n2 = t_at(tree, lex)
+                    if what == "entry_file" and n2 is not None and n2[0] == "F" and phys is not None and phys != lex:
+                        tags.add("dotdot_after_link_collides_with_other_file")
                 acc = py_realpath(tree, acc + [c]) or acc + [c]
             else:
                 acc = acc + [c]
@@ -531,6 +591,12 @@ CORPUS_EXTRA = [
         [[0, [["cb", "src", "a.c"], [["cb", "inc1"]], [], [["h.h"], ["h.h"]]]]],
         [(["cb", "inc1", "lh.h"], 0, ["h.h"]), (["cb", "li"], 0, ["inc1"])],
         entries=[[0, [["cb", "src", "a.c"], [["cb", "li"]], [], [["h.h"], ["lh.h"]]]]]),
+    # 'dirlink/../a.c' where a DIFFERENT a.c sits beside the link: the textual collapse names the wrong file
+    _mk([[["cb", "src", "a.c"], [["Code"], ["If", ["Defd", "F0"]], ["Code"], ["Endif"]]],
+         [["cb", "inc1", "a.c"], [["Code"], ["Def", "OTHER", "E"], ["Code"], ["Undef", "OTHER"], ["Code"]]]],
+        [[0, [["cb", "src", "a.c"], [], [["F0", "E"]], []]], [1, [["cb", "inc1", "a.c"], [], [], []]]],
+        [(["cb", "inc1", "dl"], 0, ["..", "src", "sub"])],
+        entries=[[0, [["cb", "inc1", "dl", "..", "a.c"], [], [["F0", "E"]], []]], [1, [["cb", "inc1", "a.c"], [], [], []]]]),
     # one file compiled through a link and through its real path, a link to a file outside, a link with a non-source name
     _mk([[["cb", "src", "a.c"], [["Code"], ["If", ["Defd", "F0"]], ["Code"], ["Endif"]]], [["ext", "x.c"], [["Code"]]]],
         [[0, [["cb", "src", "a.c"], [], [], []]], [1, [["cb", "src", "a.c"], [], [["F0", "E"]], []]], [1, [["ext", "x.c"], [], [], []]]],
